@@ -92,7 +92,7 @@ def gen_table(rng):
         p = np.where(rng.random(x.size) < 0.5, 0.0, 1.0) * rng.uniform(0.5, 1, size=x.size)
         p[0] = 1.0
     elif pk == "flat":
-        p = np.full(x.size, 0.7) + rng.normal(size=x.size) * 1e-7
+        p = np.full(x.size, 0.7) * (1.0 + rng.normal(size=x.size) * 10.0 ** rng.uniform(-16, -6))     # exactly flat up to tilts of 1e-16 .. 1e-6
     else:
         p = np.sort(rng.uniform(0.01, 1, size=x.size))[::-1].copy()
     if p.sum() == 0 or np.all(p[:-1] + p[1:] == 0):
@@ -289,6 +289,14 @@ def run_job(job, rec):
             if which == "skew" and post.kinds[i] == "gamma":
                 lo = max(lo, post.loc[i] + 1e-3 * post.s[i])
             lo, hi = min(lo, point[i] - 0.5 * w), max(hi, point[i] + 0.5 * w)
+            if not narrow and i != far_i and rng.random() < 0.25 and (hi - lo) > 20 * w:
+                # the conditioning coordinate in the outermost fifteenth of the bounds range (next to a bound, not on it)
+                gap = (hi - lo) * rng.uniform(0.005, 0.06)
+                if rng.random() < 0.5:
+                    hi = point[i] + max(gap, 0.5 * w)
+                else:
+                    lo = point[i] - max(gap, 0.5 * w)
+                rec.count("cases:conditioning_coordinate_next_to_a_bound")
             if which == "skew" and post.kinds[i] == "gamma":
                 lo = max(lo, post.loc[i] + 1e-3 * post.s[i])
                 point[i] = max(point[i], lo + 0.01 * w)
